@@ -309,8 +309,10 @@ def matches_known(pid, event, known):
 
 class Report:
     """Collects what one check did; prints VIOLATION / KNOWN-FINDING lines; writes evidence."""
+    current = None     # the report of the running check (bin/check finishes it if the check dies after a violation)
 
     def __init__(self, pid, tier, seed):
+        Report.current = self
         self.pid = pid
         self.tier = tier
         self.seed = seed
